@@ -94,4 +94,8 @@ def MATCH(
             return i or xlerrors.NaExcelError(
                 "No greater value found."
             )
+    if match_type == 1 or match_type == -1:
+        # Every value is on the near side of the lookup value: the last
+        # position is the best approximate match.
+        return len(lookup_array) or xlerrors.NaExcelError("No match found.")
     return xlerrors.NaExcelError("No match found.")
